@@ -129,6 +129,13 @@ func (c *client) PushBlob(ctx context.Context, repo string, desc ociregistry.Des
 		return ociregistry.Descriptor{}, err
 	}
 	req.URL = urlWithDigest(location, string(desc.Digest))
+	if req.Body == http.NoBody && desc.Size != 0 {
+		// Note: net/http knows the length of some in-memory readers and has found this one
+		// empty. It would send no content at all whatever ContentLength says, and an empty
+		// body is also what the empty blob looks like on the wire, so the mismatch
+		// would go unnoticed.
+		return ociregistry.Descriptor{}, fmt.Errorf("no content but the descriptor size is %d: %w", desc.Size, ociregistry.ErrSizeInvalid)
+	}
 	req.ContentLength = desc.Size
 	if desc.Size == 0 {
 		// Note: net/http treats a zero ContentLength with a non-nil
